@@ -121,3 +121,14 @@ Definition print_logger_name_ref (f_add_string : bytes -> bytes -> bytes -> byte
          then Some (f_add_string buf [x6c;x6f;x67;x67;x65;x72] name ++ [if jsonMode then x2c else x20])
          else Some (f_wrap_to buf 37 (-1) name ++ [x20])
   end.
+
+(* Entry.printSeverity: [name] is the level's name, [tag] its short tag of the configured width (None = ShortTag panics) *)
+Definition print_severity_ref (f_add_string : bytes -> bytes -> bytes -> bytes) (f_wrap_to : bytes -> Z -> Z -> bytes -> bytes)
+  (f_wrap_rune : bytes -> Z -> Z -> bytes) (name : bytes) (tag : option bytes)
+  (noColor jsonMode : bool) (clr bg : Z) (buf : bytes) : option bytes :=
+  if noColor
+  then Some (f_add_string buf [x6c;x65;x76;x65;x6c] name ++ [if jsonMode then x2c else x20])
+  else match tag with
+       | None => None
+       | Some t => Some (f_wrap_to buf clr bg (f_wrap_rune t 91 93) ++ [x20])
+       end.
